@@ -3,7 +3,7 @@ from ..core import AnalysisError, term_s, subterms
 from . import conn
 from .conn import leaves, ret_kind, self_field
 from .fields import field_writers, mut_borrow_consumers
-from .util import const_of, is_call, last_seg, look, norm, truth, option_is_some
+from .util import payload_of, result_outcome, propagated_error, const_of, is_call, last_seg, look, norm, truth, option_is_some
 
 EXPLANATION = (
     "Static decision of the writer's bookkeeping over every path of HttpConnection::try_write "
@@ -101,9 +101,9 @@ def paths(ctx, remap=None, only=None):
         if sers:
             s = sers[0]
             popped = look(s[4][2][0])
-            ok_src = popped[0] == "field" and popped[1][0] == "downcast" and popped[1][2] == "Some" and pops and norm(look(popped[1][1])) == norm(pops[0][4])
+            ok_src = bool(pops) and payload_of(popped) is not None and norm(payload_of(popped)) == norm(pops[0][4])
             sink = look(s[4][2][1])
-            failed = any(t[0] == "discr" and is_call(t[1], "branch") and c == ("eq", 1) for (t, c, _b) in lf.conds)
+            failed = result_outcome(lf, s[4]) == "err"
             if failed:
                 seen.add("serialize-error")
                 ctx.ob("R06.4", "serialize-error-propagated", rk[0] == "prop" and not sc, "a serialization error is returned and the stream is not touched", fn.loc(lf.bb))
@@ -119,9 +119,11 @@ def paths(ctx, remap=None, only=None):
             ctx.ob("R06.4", "serialized-popped-response-into-buffer", ok_src and ok_store, "the popped response is serialized with Response::write_all into a vector and exactly that vector becomes the unsent buffer (source %s, stored %s)" % (ok_src, ok_store), fn.loc(s[1]))
         # classify by what happened on the stream
         if not sc:
-            if rk[0] == "Err" and look(rk[1])[0] == "agg" and look(rk[1])[2] == "InvalidWrite":
+            errv = look(rk[1]) if rk[0] == "Err" else (propagated_error(rk[1])[1] if rk[0] == "prop" else None)
+            if errv is not None and errv[0] == "agg" and errv[2] == "InvalidWrite":
                 seen.add("invalid-write")
                 q_empty = any(t[0] == "discr" and is_call(look(t[1]), "pop_front") and option_is_some(c) is False for (t, c, _b) in lf.conds)
+                q_empty = q_empty or (bool(pops) and rk[0] == "prop" and norm(propagated_error(rk[1])[0]) == norm(pops[0][4]))
                 ctx.ob("R06.1", "invalid-write|nothing-pending-and-untouched", buf_none is True and q_empty and not stores, "InvalidWrite is returned only with no unsent buffer and an empty queue, without touching the stream", fn.loc(lf.bb))
             elif rk[0] == "Ok":
                 # infeasible by typestate (buffer Some but as_mut None); must not change anything
@@ -148,11 +150,16 @@ def paths(ctx, remap=None, only=None):
         interrupted = None
         for (t, c, _b) in lf.conds:
             x = look(t)
-            if x[0] == "field" and x[1][0] == "downcast" and x[1][2] == "Ok" and norm(look(x[1][1])) == norm(W):
+            if payload_of(x) is not None and x[0] != "bin" and norm(payload_of(x)) == norm(W):
                 if c == ("eq", 0):
                     payload0 = True
                 elif c[0] == "ne" and 0 in c[1]:
                     payload0 = False
+            if t[0] == "bin" and t[1] in ("Ne", "Eq") and truth(c) is not None:
+                # `n == 0` / `n != 0` written as a comparison (match guard) instead of a pattern
+                for a, b in ((t[2], t[3]), (t[3], t[2])):
+                    if const_of(b) == 0 and payload_of(a) is not None and norm(payload_of(a)) == norm(W):
+                        payload0 = truth(c) if t[1] == "Eq" else not truth(c)
             if t[0] == "bin" and t[1] in ("Ne", "Eq") and any(norm(s) == norm(W) for s in subterms(t) if isinstance(s, tuple)) and any(is_call(s, "len") for s in subterms(t) if isinstance(s, tuple)):
                 tv = truth(c)
                 short = tv if t[1] == "Ne" else (None if tv is None else not tv)
@@ -176,7 +183,7 @@ def paths(ctx, remap=None, only=None):
                 ok = r[0] == "agg" and r[1].startswith("std::ops::RangeTo") and not r[1].startswith("std::ops::RangeToInclusive")
                 if ok:
                     n = look(r[3][0])
-                    ok = n[0] == "field" and n[1][0] == "downcast" and n[1][2] == "Ok" and norm(look(n[1][1])) == norm(W)
+                    ok = payload_of(n) is not None and norm(payload_of(n)) == norm(W)
             ctx.ob("R06.2", "short|drain-exactly-written", ok, "short write: exactly buffer.drain(..n) with n the count that very write returned; buffer kept, Ok returned", fn.loc(lf.bb))
         elif wres == "ok" and payload0 is False and short is False:
             seen.add("full")
